@@ -141,6 +141,23 @@ def eval_trunc(case):
                     cc.load({"truncate_error": "true" if want_on else "false"}, update=True)
                 do_hash = lambda s: cc.hash(s, **ctxkw)  # noqa: E731
                 do_verify = lambda s, h: cc.verify(s, h, **ctxkw)  # noqa: E731
+            elif mode in ("on_category_all", "off_category_all", "on_category_all_ini", "on_category_scheme", "off_category_scheme"):
+                # the policy given for ONE user category only (context-wide '<cat>__all__truncate_error' or per scheme
+                # '<cat>__<scheme>__truncate_error'), against the opposite policy for everybody else; the category is used
+                import warnings as _w
+
+                opts = {f"{name}__{k}": v for k, v in kw.items()}
+                want_on = mode.startswith("on_")
+                ck = f"staff__all__truncate_error" if "_all" in mode else f"staff__{name}__truncate_error"
+                with _w.catch_warnings():
+                    _w.simplefilter("ignore")
+                    if mode.endswith("_ini"):
+                        lines = "".join(f"{k} = {v}\n" for k, v in opts.items())
+                        cc = CryptContext.from_string(f"[passlib]\nschemes = {name}\n{lines}truncate_error = {str(not want_on).lower()}\n{ck} = {str(want_on).lower()}\n")
+                    else:
+                        cc = CryptContext(schemes=[name], truncate_error=not want_on, **{ck: want_on}, **opts)
+                do_hash = lambda s: cc.hash(s, category="staff", **ctxkw)  # noqa: E731
+                do_verify = lambda s, h: cc.verify(s, h, category="staff", **ctxkw)  # noqa: E731
             else:
                 Hc = H.using(**kw) if kw else H
                 do_hash = lambda s: Hc.hash(s, **ctxkw)  # noqa: E731
@@ -430,7 +447,8 @@ def run(ctx):
             for backend in backends_of(name):
                 if backend == "builtin" and HS.base_name(name) == "bcrypt":
                     continue
-                for mode in ("on_context_update", "off_context_update", "on_context_copy", "off_context_load", "on_object_update", "on_object_copy"):
+                for mode in ("on_context_update", "off_context_update", "on_context_copy", "off_context_load", "on_object_update", "on_object_copy",
+                             "on_category_all", "off_category_all", "on_category_all_ini", "on_category_scheme", "off_category_scheme"):
                     for shape, p in (short[::3] if ctx.quick else short):
                         cases.append({"part": "trunc", "hasher": name, "backend": backend, "mode": mode, "shape": shape,
                                       "password": p, "form": "text", "encoding": None})
